@@ -1126,39 +1126,57 @@ theorem matches_of {l : Spec.Line} {evs : List Ev} (o : Option Exn)
   | none => exact Or.inl ⟨hl, ha⟩
   | some e => exact Or.inr ⟨e, ha, hl⟩
 
-theorem agrees_unary (out : Except Exn Nat) :
-    Agrees (match out with | .ok _ => none | .error e => some e) (Engine.Http.unaryObs [] out) := by
+def errOf : Except Exn Nat → Option Exn
+  | .ok _ => none
+  | .error e => some e
+
+def errOfH (out : Except Exn Nat) (over : Option Exn) : Option Exn :=
+  match out with
+  | .ok _ => over
+  | .error e => some e
+
+def unaryOutcome (m : UnaryM) (over : Option Exn) : Http.Outcome :=
+  { err := errOfH m.out over, http := if (errOfH m.out over).isSome then G.unaryErr else G.okStatus }
+
+theorem pipe_unary_eq (env : Env) (m : UnaryM) :
+    Pipe.unary env m = [emit env (Pipe.amb []) (Pipe.site m.name .unary (errOf m.out) false)] := by
+  unfold Pipe.unary errOf
+  cases m.out <;> rfl
+
+theorem http_unary_eq (env : Env) (m : UnaryM) (over : Option Exn) :
+    Http.unary env m over =
+      [{ emit env (Http.amb env []) (Http.site m.name .unary (unaryOutcome m over)) with responseBytes := true }] := by
+  unfold Http.unary unaryOutcome errOfH
+  cases m.out <;> simp [Http.egress, egressOnce]
+
+theorem agrees_unary (out : Except Exn Nat) : Agrees (errOf out) (Engine.Http.unaryObs [] out) := by
   rw [unaryObs_eq]
   cases out with
   | ok v => intro t m k h; simp at h
-  | error e => simp [Agrees]
+  | error e => simp [Agrees, errOf]
+
+theorem errOfH_eff (m : UnaryM) (over : Option Exn) : errOfH m.out over = errOf (effOut .http m over) := by
+  cases hm : m.out <;> cases over <;> simp [effOut, hm, errOfH, errOf]
 
 theorem unary_status (env : Env) (t : Transport) (n : Nat) (m : UnaryM) (over : Option Exn) :
     ∀ r ∈ callRecords env t n (.unary m over), Spec.Matches (line r) (Engine.Http.unaryObs [] (effOut t m over)) := by
   intro r hr
   cases t with
   | pipe =>
-    simp only [callRecords, Pipe.call, Pipe.unary, List.mem_singleton] at hr
+    simp only [callRecords, Pipe.call, pipe_unary_eq, List.mem_singleton] at hr
     subst hr
-    have hrep := (pipe_site_reports env (Pipe.amb []) m.name .unary
-      (match m.out with | .ok _ => none | .error e => some e) false).1
+    have hrep := (pipe_site_reports env (Pipe.amb []) m.name .unary (errOf m.out) false).1
     have : effOut .pipe m over = m.out := by simp [effOut]
     rw [this]
     exact matches_of _ hrep (agrees_unary m.out)
   | http =>
-    simp only [callRecords, Http.call, Http.unary, Http.egress, egressOnce, if_true, List.map_cons, List.map_nil,
-      List.mem_singleton] at hr
+    simp only [callRecords, Http.call, http_unary_eq, List.mem_singleton] at hr
     subst hr
     rw [line_resp]
-    have hrep := (http_site_reports env (Http.amb env []) m.name .unary
-      { err := (match m.out with | .ok _ => over | .error e => some e),
-        http := if (match m.out with | .ok _ => over | .error e => some e).isSome then G.unaryErr else G.okStatus }).1
-    have he : (match m.out with | .ok _ => over | .error e => some e) =
-        (match effOut .http m over with | .ok _ => none | .error e => some e) := by
-      cases hm : m.out <;> cases over <;> simp [effOut, hm]
+    have hrep := (http_site_reports env (Http.amb env []) m.name .unary (unaryOutcome m over)).1
     have ha := agrees_unary (effOut .http m over)
-    rw [← he] at ha
-    exact matches_of _ hrep ha
+    rw [← errOfH_eff] at ha
+    exact matches_of (errOfH m.out over) hrep ha
 
 theorem pipe_producer_status (env : Env) (n : Nat) (m : StreamM) (brk : Nat → Bool) (fin : Fin)
     (hx : m.exchange = false) (hi : m.init = none) :
@@ -1240,5 +1258,556 @@ theorem init_raise_status (env : Env) (t : Transport) (n : Nat) (c : Call) (m : 
       simp only [callRecords, Http.call, Http.requests, hi, List.flatMap_cons, List.flatMap_nil, List.append_nil] at hr
       exact hhttp _ r hr
 
+/-! ### HTTP: one exchange response, and a producer followed to its end -/
+
+theorem exchangeOne_agrees (s : Step) :
+    Agrees (match cls (processExchangeStep s) with | .fail e => some e | _ => none) (Engine.Http.exchangeOne s).1 := by
+  cases hact : s.act with
+  | emit b =>
+    have h1 : processExchangeStep s = .cont (logItems s.logs ++ [Item.data b] ++ logItems s.post) := by
+      simp [processExchangeStep, processStep, hact]
+    simp only [Engine.Http.exchangeOne, h1, cls]
+    rw [List.append_assoc, Engine.Aux.readExchange_logs]
+    simp only [List.singleton_append, Engine.Http.readExchange, Engine.Aux.trailing_logs]
+    exact saw_append (saw_lg _) (saw_append (saw_lg _) (saw_data b))
+  | finish =>
+    have h1 : processExchangeStep s = .fail [.err finishOnExchangeExn] := by simp [processExchangeStep, hact]
+    simp [Engine.Http.exchangeOne, h1, cls, failExn, Engine.Http.readExchange, Agrees]
+  | emitFinish b =>
+    have h1 : processExchangeStep s = .fail [.err finishOnExchangeExn] := by simp [processExchangeStep, hact]
+    simp [Engine.Http.exchangeOne, h1, cls, failExn, Engine.Http.readExchange, Agrees]
+  | raise e =>
+    have h1 : processExchangeStep s = .fail [.err e] := by simp [processExchangeStep, processStep, hact]
+    simp [Engine.Http.exchangeOne, h1, cls, failExn, Engine.Http.readExchange, Agrees]
+  | nothing =>
+    have h1 : processExchangeStep s = .fail [.err noDataExn] := by simp [processExchangeStep, processStep, hact]
+    simp [Engine.Http.exchangeOne, h1, cls, failExn, Engine.Http.readExchange, Agrees]
+
+theorem http_exchange_turn_status (env : Env) (brk : Nat → Bool) (n : Nat) (m : StreamM) (pos : Nat) :
+    ∀ r ∈ Http.serve env brk n m (.exch pos none),
+      Spec.Matches (line r) (Engine.Http.exchangeOne (stepAt true m.steps pos)).1 := by
+  intro r hr
+  have hrep := (serve_reports env brk n m (.exch pos none) r hr).1
+  have he : Http.reqErr brk m (.exch pos none) =
+      (match cls (processExchangeStep (stepAt true m.steps pos)) with | .fail e => some e | _ => none) := by
+    simp only [Http.reqErr, Http.exchOutcome, clsAt_exchange]
+    cases cls (processExchangeStep (stepAt true m.steps pos)) <;> rfl
+  rw [he] at hrep
+  exact matches_of _ hrep (exchangeOne_agrees _)
+
+theorem fr_logs (server : Nat → List Item) (fuel : Nat) (ls : List Log) (xs : List Item) (d : Option Nat) :
+    Http.followReqs server fuel (logItems ls ++ xs) d = Http.followReqs server fuel xs d := by
+  induction ls with
+  | nil => rfl
+  | cons l r ih =>
+    simp only [logItems, List.map_cons, List.cons_append] at ih ⊢
+    cases fuel <;> simpa [Http.followReqs] using ih
+
+theorem fr_data (server : Nat → List Item) (fuel : Nat) (b : Batch) (xs : List Item) :
+    Http.followReqs server fuel (.data b :: xs) none = Http.followReqs server fuel xs none := by
+  cases fuel <;> simp [Http.followReqs]
+
+theorem fr_nil (server : Nat → List Item) (fuel : Nat) (d : Option Nat) : Http.followReqs server fuel [] d = [] := by
+  cases fuel <;> simp [Http.followReqs]
+
+theorem fr_err (server : Nat → List Item) (fuel : Nat) (e : Exn) (xs : List Item) (d : Option Nat) :
+    Http.followReqs server fuel (.err e :: xs) d = [] := by
+  cases fuel <;> simp [Http.followReqs]
+
+/-- following a producer to its end: every response but the last carries no error, the last one carries the script's -/
+theorem chain (brk : Nat → Bool) (steps : List Step) :
+    ∀ (rest : List Step) (pos fuel : Nat), steps.drop pos = rest → rest.length ≤ fuel →
+      Http.firstErr (Engine.Http.turn brk pos rest) ::
+          (Http.followReqs (Engine.Http.serveContinuation brk steps) fuel (Engine.Http.turn brk pos rest) none).map
+            (fun p => Http.firstErr (Engine.Http.serveContinuation brk steps p)) =
+        List.replicate
+          (Http.followReqs (Engine.Http.serveContinuation brk steps) fuel (Engine.Http.turn brk pos rest) none).length none ++
+          [outcomeP rest] := by
+  intro rest
+  induction rest with
+  | nil =>
+    intro pos fuel _ _
+    simp [Engine.Http.turn, fr_nil, Http.firstErr, outcomeP]
+  | cons s r ih =>
+    intro pos fuel hdrop hfuel
+    have hr : steps.drop (pos + 1) = r := Engine.Aux.drop_succ_of_drop steps pos s r hdrop
+    simp only [List.length_cons] at hfuel
+    cases hact : s.act with
+    | emit b =>
+      have hc : outcomeP (s :: r) = outcomeP r := by simp [outcomeP, processStep, hact, cls]
+      rw [hc]
+      simp only [Engine.Http.turn, processStep, hact]
+      rw [List.append_assoc, List.append_assoc, fr_logs, firstErr_logs]
+      simp only [List.singleton_append, Http.firstErr]
+      rw [fr_data, fr_logs, firstErr_logs]
+      cases hb : brk pos with
+      | true =>
+        simp only [if_true]
+        obtain ⟨f, rfl⟩ : ∃ f, fuel = f + 1 := ⟨fuel - 1, by omega⟩
+        have e : Engine.Http.serveContinuation brk steps (pos + 1) = Engine.Http.turn brk (pos + 1) r := by
+          simp [Engine.Http.serveContinuation, hr]
+        simp only [Http.followReqs, Http.firstErr, List.map_cons, List.length_cons, List.replicate_succ, List.cons_append,
+          List.cons.injEq, true_and]
+        rw [e]
+        exact ih (pos + 1) f hr (by omega)
+      | false =>
+        simp only [Bool.false_eq_true, if_false]
+        exact ih (pos + 1) fuel hr (by omega)
+    | finish =>
+      have hc : outcomeP (s :: r) = none := by simp [outcomeP, processStep, hact, cls]
+      rw [hc]
+      simp only [Engine.Http.turn, processStep, hact]
+      rw [fr_logs, firstErr_logs, firstErr_logs_only]
+      have : Http.followReqs (Engine.Http.serveContinuation brk steps) fuel (logItems s.post) none = [] := by
+        have := fr_logs (Engine.Http.serveContinuation brk steps) fuel s.post [] none
+        rw [List.append_nil] at this
+        rw [this, fr_nil]
+      rw [this]; rfl
+    | emitFinish b =>
+      have hc : outcomeP (s :: r) = none := by simp [outcomeP, processStep, hact, cls]
+      rw [hc]
+      simp only [Engine.Http.turn, processStep, hact]
+      rw [List.append_assoc, fr_logs, firstErr_logs]
+      simp only [List.singleton_append, Http.firstErr]
+      rw [fr_data, firstErr_logs_only]
+      have : Http.followReqs (Engine.Http.serveContinuation brk steps) fuel (logItems s.post) none = [] := by
+        have := fr_logs (Engine.Http.serveContinuation brk steps) fuel s.post [] none
+        rw [List.append_nil] at this
+        rw [this, fr_nil]
+      rw [this]; rfl
+    | raise e =>
+      have hc : outcomeP (s :: r) = some e := by simp [outcomeP, processStep, hact, cls, failExn]
+      rw [hc]
+      simp [Engine.Http.turn, processStep, hact, fr_err, Http.firstErr]
+    | nothing =>
+      have hc : outcomeP (s :: r) = some noDataExn := by simp [outcomeP, processStep, hact, cls, failExn]
+      rw [hc]
+      simp [Engine.Http.turn, processStep, hact, fr_err, Http.firstErr]
+
+/-- `__iter__` after the eager parse of the init response issues the same requests as reading that body lazily would -/
+theorem fr_parse (server : Nat → List Item) (fuel : Nat) :
+    ∀ items : List Item, Http.followReqs server (fuel + 1) items none =
+      (if (Engine.Http.parseInit items).err.isSome then []
+       else (Engine.Http.parseInit items).cursor.elim [] (fun c => c :: Http.followReqs server fuel (server c) none)) := by
+  intro items
+  induction items with
+  | nil => simp [Http.followReqs, Engine.Http.parseInit]
+  | cons x r ih =>
+    cases x with
+    | log l =>
+      have h1 : (Engine.Http.parseInit (.log l :: r)).err = (Engine.Http.parseInit r).err := rfl
+      have h2 : (Engine.Http.parseInit (.log l :: r)).cursor = (Engine.Http.parseInit r).cursor := rfl
+      rw [h1, h2, ← ih]
+      simp only [Http.followReqs]
+    | data b =>
+      have h1 : (Engine.Http.parseInit (.data b :: r)).err = (Engine.Http.parseInit r).err := rfl
+      have h2 : (Engine.Http.parseInit (.data b :: r)).cursor = (Engine.Http.parseInit r).cursor := rfl
+      rw [h1, h2, ← ih]
+      simp only [Http.followReqs]
+    | err e => simp [Http.followReqs, Engine.Http.parseInit]
+    | token p => simp [Http.followReqs, Engine.Http.parseInit]
+
+theorem producerConts_drained (brk : Nat → Bool) (m : StreamM) :
+    Http.producerConts brk m none =
+      Http.followReqs (Engine.Http.serveContinuation brk m.steps) (m.steps.length + 1 + 1) (Engine.Http.turn brk 0 m.steps) none := by
+  rw [fr_parse]
+  have hb : Engine.Http.initBody brk [] m.steps = Engine.Http.turn brk 0 m.steps := by simp [Engine.Http.initBody, logItems]
+  simp only [Http.producerConts, Http.afterPending, hb]
+  cases (Engine.Http.parseInit (Engine.Http.turn brk 0 m.steps)).cursor <;>
+    cases (Engine.Http.parseInit (Engine.Http.turn brk 0 m.steps)).err <;> rfl
+
+theorem mem_restOf (evs : List Ev) (t m : Str) (k : Option Str) : Ev.error t m k ∈ restOf evs ↔ Ev.error t m k ∈ evs := by
+  simp [restOf]
+
+theorem agrees_of_obs {a b : List Ev} (h : obs a = obs b) (o : Option Exn) (hb : Agrees o b) : Agrees o a := by
+  have hr : restOf a = restOf b := congrArg Obs.rest h
+  cases o with
+  | some e =>
+    show errEv e ∈ a
+    have : errEv e ∈ restOf b := (mem_restOf b _ _ _).mpr hb
+    rw [← hr] at this
+    exact (mem_restOf a _ _ _).mp this
+  | none =>
+    intro t m k hm
+    have : Ev.error t m k ∈ restOf a := (mem_restOf a t m k).mpr hm
+    rw [hr] at this
+    exact hb t m k ((mem_restOf b t m k).mp this)
+
+theorem http_iterate_agrees (brk : Nat → Bool) (steps : List Step) :
+    Agrees (outcomeP steps) (Engine.Http.iterate brk [] steps) := by
+  have h := Engine.http_producer_refines brk [] steps
+  simp only [Sem.lg, List.map_nil, List.nil_append] at h
+  exact agrees_of_obs h _ (sem_producer_outcome steps)
+
+theorem serve_singleton (env : Env) (brk : Nat → Bool) (n : Nat) (m : StreamM) (q : Http.Req) :
+    ∃ r, Http.serve env brk n m q = [r] := by
+  obtain ⟨known, h⟩ := serve_eq env brk n m q
+  exact ⟨_, h⟩
+
+/-- HTTP, a producer followed to its end: the records are `front ++ [last] ++ tail` where every record of `front` says ok,
+`last` reports how the stream ended for the client, and `tail` is the record of the cancel request (if one was sent) -/
+theorem http_producer_drained (env : Env) (n : Nat) (m : StreamM) (brk : Nat → Bool) (fin : Fin)
+    (hx : m.exchange = false) (hi : m.init = none) :
+    ∃ front last tail, callRecords env .http n (.producer m brk none fin) = front ++ [last] ++ tail ∧
+      (∀ r ∈ front, Spec.ReportsOk (line r)) ∧
+      Spec.Matches (line last) (Engine.Http.iterate brk [] m.steps) ∧
+      (∀ r ∈ tail, Spec.ReportsCancel (line r)) := by
+  let server := Engine.Http.serveContinuation brk m.steps
+  let ps := Http.followReqs server (m.steps.length + 1 + 1) (Engine.Http.turn brk 0 m.steps) none
+  have hchain := chain brk m.steps m.steps 0 (m.steps.length + 1 + 1) rfl (by omega)
+  -- the requests before the cancel, and the error each response carries
+  have hreq : Http.requests (.producer m brk none fin) =
+      (.init :: ps.map .cont) ++ Http.finReq (Http.producerCanCancel brk m) fin := by
+    simp only [Http.requests, hi, producerConts_drained, List.cons_append]
+    rfl
+  have herrs : (Http.Req.init :: ps.map .cont).map (Http.reqErr brk m) = List.replicate ps.length none ++ [outcomeP m.steps] := by
+    have h0 : Http.reqErr brk m .init = Http.firstErr (Engine.Http.turn brk 0 m.steps) := by
+      simp [Http.reqErr, hi, hx, Engine.Http.initBody, logItems]
+    simp only [List.map_cons, List.map_map, h0]
+    exact hchain
+  obtain ⟨qf, ql, hq, hqf, hql⟩ := List.map_eq_append_iff.mp herrs
+  obtain ⟨q, rfl, hqe⟩ := List.map_eq_singleton_iff.mp hql
+  obtain ⟨last, hlast⟩ := serve_singleton env brk n m q
+  refine ⟨qf.flatMap (Http.serve env brk n m), last,
+    (Http.finReq (Http.producerCanCancel brk m) fin).flatMap (Http.serve env brk n m), ?_, ?_, ?_, ?_⟩
+  · simp only [callRecords, Http.call, hreq, hq, List.flatMap_append, List.flatMap_cons, List.flatMap_nil, List.append_nil,
+      hlast]
+  · intro r hr
+    obtain ⟨q', hq', hr'⟩ := List.mem_flatMap.mp hr
+    have hnone : Http.reqErr brk m q' = none := by
+      have : Http.reqErr brk m q' ∈ qf.map (Http.reqErr brk m) := List.mem_map_of_mem hq'
+      rw [hqf] at this
+      exact (List.mem_replicate.mp this).2
+    have := (serve_reports env brk n m q' r hr').1
+    rw [hnone] at this
+    exact this
+  · have hr : last ∈ Http.serve env brk n m q := by rw [hlast]; simp
+    have := (serve_reports env brk n m q last hr).1
+    rw [hqe] at this
+    exact matches_of _ this (http_iterate_agrees brk m.steps)
+  · intro r hr
+    obtain ⟨q', hq', hr'⟩ := List.mem_flatMap.mp hr
+    cases finReq_mem hq'
+    have := serve_reports env brk n m .cancel r hr'
+    exact ⟨this.2, this.1⟩
+
+/-- a record marked `cancelled` is the record of a cancel the server honoured: status ok -/
+theorem cancelled_ok (env : Env) (t : Transport) (n : Nat) (c : Call) :
+    ∀ r ∈ callRecords env t n c, (line r).cancelled = true → Spec.ReportsCancel (line r) := by
+  intro r hr hc
+  refine ⟨hc, ?_⟩
+  have pipeCase : ∀ (m : StreamM) (ins : List Pipe.In), r ∈ Pipe.stream env n m ins → Spec.ReportsOk (line r) := by
+    intro m ins hr
+    obtain ⟨c', he, hiff⟩ := pipe_stream_eq env n m ins
+    have hrep := pipe_stream_reports env n m ins r hr
+    rw [he, List.mem_singleton] at hr
+    subst hr
+    have hc' : c' = true := by
+      have := (pipe_site_reports env (Pipe.amb (env.sid n)) m.name .stream (Pipe.streamErr m ins) c').2
+      rw [this] at hc
+      exact hc
+    obtain ⟨h1, h2⟩ := hiff.mp hc'
+    have : Pipe.streamErr m ins = none := by simp [Pipe.streamErr, h1, h2]
+    rw [this] at hrep ⊢
+    exact hrep
+  have httpCase : ∀ (brk : Nat → Bool) (m : StreamM) (q : Http.Req), r ∈ Http.serve env brk n m q → Spec.ReportsOk (line r) := by
+    intro brk m q hr
+    have := serve_reports env brk n m q r hr
+    cases q with
+    | cancel =>
+      have h1 := this.1
+      simp only [Http.reqErr] at h1
+      exact h1
+    | init => rw [this.2] at hc; cases hc
+    | cont p => rw [this.2] at hc; cases hc
+    | exch p o => rw [this.2] at hc; cases hc
+  cases t with
+  | pipe =>
+    cases c with
+    | unary m over =>
+      simp only [callRecords, Pipe.call, pipe_unary_eq, List.mem_singleton] at hr
+      subst hr
+      have := (pipe_site_reports env (Pipe.amb []) m.name .unary (errOf m.out) false).2
+      rw [this] at hc
+      cases hc
+    | producer m brk d fin => exact pipeCase m _ hr
+    | exchange m sends over fin => exact pipeCase m _ hr
+  | http =>
+    cases c with
+    | unary m over =>
+      simp only [callRecords, Http.call, http_unary_eq, List.mem_singleton] at hr
+      subst hr
+      rw [line_resp] at hc
+      have := (http_site_reports env (Http.amb env []) m.name .unary (unaryOutcome m over)).2
+      rw [this] at hc
+      cases hc
+    | producer m brk d fin =>
+      simp only [callRecords, Http.call, List.mem_flatMap] at hr
+      obtain ⟨q, _, hq⟩ := hr
+      exact httpCase brk m q hq
+    | exchange m sends over fin =>
+      simp only [callRecords, Http.call, List.mem_flatMap] at hr
+      obtain ⟨q, _, hq⟩ := hr
+      exact httpCase _ m q hq
+
+/-- every error record names an exception of the call's program and carries its full text -/
+theorem call_message (env : Env) (t : Transport) (n : Nat) (c : Call)
+    (hk : match c with | .unary _ _ => True | .producer m _ _ _ => m.exchange = false | .exchange m _ _ _ => m.exchange = true) :
+    ∀ r ∈ callRecords env t n c, (line r).status = .error → ∃ e, c.mayRaise e ∧ Spec.ReportsError (line r) e := by
+  intro r hr hs
+  have notOk : ¬ Spec.ReportsOk (line r) := fun h => by rw [h.1] at hs; cases hs
+  have pipeCase : ∀ (m : StreamM) (ins : List Pipe.In), r ∈ Pipe.stream env n m ins →
+      ∃ e, (m.init = some e ∨ ∃ k, clsAt m.exchange m.steps k = .fail e) ∧ Spec.ReportsError (line r) e := by
+    intro m ins hr
+    have hrep := pipe_stream_reports env n m ins r hr
+    cases he : Pipe.streamErr m ins with
+    | none => rw [he] at hrep; exact absurd hrep notOk
+    | some e =>
+      rw [he] at hrep
+      refine ⟨e, ?_, hrep⟩
+      unfold Pipe.streamErr at he
+      cases hi : m.init with
+      | some e' => rw [hi] at he; left; exact he
+      | none =>
+        rw [hi] at he
+        right
+        cases hl : Pipe.loop m.exchange m.steps 0 ins with
+        | err e' =>
+          rw [hl] at he
+          cases he
+          exact loop_err ins 0 hl
+        | finished => rw [hl] at he; cases he
+        | eos => rw [hl] at he; cases he
+        | cancelled => rw [hl] at he; cases he
+  cases t with
+  | pipe =>
+    cases c with
+    | unary m over =>
+      simp only [callRecords, Pipe.call, pipe_unary_eq, List.mem_singleton] at hr
+      subst hr
+      have hrep := (pipe_site_reports env (Pipe.amb []) m.name .unary (errOf m.out) false).1
+      cases ho : m.out with
+      | ok v => simp only [ho, errOf] at hrep notOk; exact absurd hrep notOk
+      | error e => simp only [ho, errOf] at hrep ⊢; exact ⟨e, Or.inl ho, hrep⟩
+    | producer m brk d fin =>
+      obtain ⟨e, h, hrep⟩ := pipeCase m _ hr
+      have hx : m.exchange = false := hk
+      rw [hx] at h
+      exact ⟨e, h, hrep⟩
+    | exchange m sends over fin =>
+      obtain ⟨e, h, hrep⟩ := pipeCase m _ hr
+      have hx : m.exchange = true := hk
+      rw [hx] at h
+      rcases h with h | h
+      · exact ⟨e, Or.inl h, hrep⟩
+      · exact ⟨e, Or.inr (Or.inl h), hrep⟩
+  | http =>
+    cases c with
+    | unary m over =>
+      simp only [callRecords, Http.call, http_unary_eq, List.mem_singleton] at hr
+      subst hr
+      rw [line_resp] at hs notOk ⊢
+      have hrep := (http_site_reports env (Http.amb env []) m.name .unary (unaryOutcome m over)).1
+      have herr : (unaryOutcome m over).err = errOfH m.out over := rfl
+      rw [herr] at hrep
+      cases he : errOfH m.out over with
+      | none => rw [he] at hrep; exact absurd hrep notOk
+      | some e =>
+        rw [he] at hrep
+        refine ⟨e, ?_, hrep⟩
+        show m.out = .error e ∨ over = some e
+        unfold errOfH at he
+        cases ho : m.out with
+        | error e' => rw [ho] at he; left; cases he; rfl
+        | ok v => rw [ho] at he; right; exact he
+    | producer m brk d fin =>
+      simp only [callRecords, Http.call, List.mem_flatMap] at hr
+      obtain ⟨q, hq, hrq⟩ := hr
+      have hrep := (serve_reports env brk n m q r hrq).1
+      cases he : Http.reqErr brk m q with
+      | none => rw [he] at hrep; exact absurd hrep notOk
+      | some e => rw [he] at hrep; exact ⟨e, producer_reqErr hk hq he, hrep⟩
+    | exchange m sends over fin =>
+      simp only [callRecords, Http.call, List.mem_flatMap] at hr
+      obtain ⟨q, hq, hrq⟩ := hr
+      have hrep := (serve_reports env _ n m q r hrq).1
+      cases he : Http.reqErr (fun _ => true) m q with
+      | none => rw [he] at hrep; exact absurd hrep notOk
+      | some e => rw [he] at hrep; exact ⟨e, exchange_reqErr hk hq he, hrep⟩
+
+/-! ### the model writes only keys the code writes -/
+
+theorem emit_keys (env : Env) (amb : Ambient) (s : Site) (k : Key) (h : ((emit env amb s).get k).isSome = true) :
+    k ∈ [Gen.C34.Key.timestamp, .level, .logger, .message] ++ G.emitBase ++ G.emitCond := by
+  cases k <;> first | decide | (simp [Record.get, emit, flag] at h)
+
+theorem emit_base (env : Env) (amb : Ambient) (s : Site) : ∀ k ∈ G.emitBase, ((emit env amb s).get k).isSome = true := by
+  intro k hk
+  simp only [VgiVerif.Gen.C34.emitBase, List.mem_cons, List.mem_nil_iff, or_false] at hk
+  rcases hk with rfl | rfl | rfl | rfl | rfl | rfl | rfl | rfl | rfl | rfl | rfl | rfl <;> rfl
+
+theorem egress_keys (r : Record) (b : Bool) (k : Key) (h : (({ r with responseBytes := b } : Record).get k).isSome = true) :
+    (r.get k).isSome = true ∨ k ∈ G.egressCond := by
+  cases k <;> first | (right; decide) | (left; exact h)
+
+theorem sentinel_keys (r : Record) (k : Key) (h : ((sentinel r).get k).isSome = true) : k ∈ G.sentinelBase ++ G.sentinelCond := by
+  cases k <;> first | decide | (simp [Record.get, sentinel, flag] at h)
+
+theorem sentinel_base (r : Record) : ∀ k ∈ G.sentinelBase, ((sentinel r).get k).isSome = true := by
+  intro k hk
+  simp only [VgiVerif.Gen.C34.sentinelBase, List.mem_cons, List.mem_nil_iff, or_false] at hk
+  rcases hk with rfl | rfl | rfl | rfl | rfl | rfl | rfl | rfl | rfl | rfl | rfl | rfl | rfl | rfl | rfl | rfl | rfl <;> rfl
+
 end Aux
+
+/-! ## Property theorems (obligations) -/
+
+open Aux
+
+/-- the assumptions on the trusted inputs are satisfiable -/
+def demoEnv : Env :=
+  { serverId := ['s'], protocol := ['P'], protocolHash := List.replicate 64 '0', serverVersion := [], debug := false,
+    principal := [], authDomain := [], authenticated := false, claims := false, requestId := ['r'], httpRemote := [],
+    sid := fun _ => List.replicate 32 'a' }
+
+example : EnvOk demoEnv :=
+  ⟨by decide, by decide, by decide, fun _ => (by decide : fullMatch (.hexLen 32) (List.replicate 32 'a') = true)⟩
+
+/-- **exactly once**: on every transport, for every program, each call's number of records is its number of dispatches
+(socket family: the call; HTTP: every POST — init, each continuation / exchange turn, the cancel) -/
+theorem C34_once (env : Env) (t : Transport) (prog : List Call) :
+    (run env t prog).length = prog.length ∧ (run env t prog).map List.length = prog.map (dispatches t) :=
+  ⟨runFrom_length env t 0 prog, runFrom_lengths env t 0 prog⟩
+
+/-- socket family: one record per call, whatever the call does -/
+theorem C34_once_pipe (env : Env) (prog : List Call) : (run env .pipe prog).map List.length = prog.map fun _ => 1 := by
+  rw [(C34_once env .pipe prog).2]
+  rfl
+
+/-- HTTP exchange stream: init + one per send (also sends after an error) + the cancel -/
+theorem C34_once_http_exchange (env : Env) (n : Nat) (m : StreamM) (sends : Nat) (over : Nat → Option Exn) (fin : Fin)
+    (hi : m.init = none) :
+    (callRecords env .http n (.exchange m sends over fin)).length = 1 + sends + (match fin with | .close => 0 | .cancel => 1) := by
+  rw [call_length]
+  simp only [dispatches, Http.requests, hi, List.length_cons, List.length_append, exchReqs_length]
+  cases fin <;> simp [Http.finReq] <;> omega
+
+/-- **schema-valid**: every record of every program on every transport validates against access_log.schema.json; in
+particular an error record carries a non-empty `error_message` -/
+theorem C34_valid (env : Env) (henv : EnvOk env) (t : Transport) (prog : List Call) (hp : ProgOk prog) :
+    ∀ rs ∈ run env t prog, ∀ r ∈ rs,
+      SchemaOk r = true ∧ (r.status = .error → ∃ m, r.errorMessage = some m ∧ m ≠ []) := by
+  intro rs hrs r hr
+  obtain ⟨k, c, hc, rfl⟩ := runFrom_mem hrs
+  have hwf := call_wf henv t k c (hp c hc) r hr
+  exact ⟨wf_schemaOk hwf, hwf.errMsg⟩
+
+/-- … and stays valid under the formatter's shedding for ANY size function (`fits`) and cap -/
+theorem C34_valid_formatted (env : Env) (henv : EnvOk env) (t : Transport) (prog : List Call) (hp : ProgOk prog)
+    (fits : Record → Bool) :
+    ∀ rs ∈ run env t prog, ∀ r ∈ rs,
+      SchemaOk (format fits r) = true ∧ (format fits r).status = r.status ∧ (format fits r).errorType = r.errorType := by
+  intro rs hrs r hr
+  obtain ⟨k, c, hc, rfl⟩ := runFrom_mem hrs
+  have hwf := call_wf henv t k c (hp c hc) r hr
+  exact ⟨wf_schemaOk (format_wf fits hwf), format_status fits r⟩
+
+/-- **status, unary**: the record matches what the caller of the unary call observes (value, the method's error, or — HTTP —
+the response-budget error) -/
+theorem C34_status_unary (env : Env) (t : Transport) (n : Nat) (m : UnaryM) (over : Option Exn) :
+    ∀ r ∈ callRecords env t n (.unary m over), Spec.Matches (line r) (Engine.Http.unaryObs [] (effOut t m over)) :=
+  unary_status env t n m over
+
+/-- **status, socket producer** iterated to its end (then closed or cancelled): the stream's one record matches what
+`StreamSession.__iter__` delivered -/
+theorem C34_status_pipe_producer (env : Env) (n : Nat) (m : StreamM) (brk : Nat → Bool) (fin : Fin)
+    (hx : m.exchange = false) (hi : m.init = none) :
+    ∀ r ∈ callRecords env .pipe n (.producer m brk none fin), Spec.Matches (line r) (Engine.Pipe.iterate [] m.steps) :=
+  pipe_producer_status env n m brk fin hx hi
+
+/-- **status, socket exchange** of any number of sends: the one record matches what the `exchange()` calls delivered -/
+theorem C34_status_pipe_exchange (env : Env) (n : Nat) (m : StreamM) (sends : Nat) (over : Nat → Option Exn) (fin : Fin)
+    (hx : m.exchange = true) (hi : m.init = none) :
+    ∀ r ∈ callRecords env .pipe n (.exchange m sends over fin),
+      Spec.Matches (line r) (Engine.Pipe.exchangeAll [] (exSteps m.steps 0 sends)) :=
+  pipe_exchange_status env n m sends over fin hx hi
+
+/-- **status, init error** (any transport, producer or exchange): the only record reports the exception -/
+theorem C34_status_init_error (env : Env) (t : Transport) (n : Nat) (c : Call) (m : StreamM) (e : Exn) (hi : m.init = some e)
+    (hc : (∃ brk d fin, c = .producer m brk d fin) ∨ (∃ sends over fin, c = .exchange m sends over fin)) :
+    ∀ r ∈ callRecords env t n c, Spec.Matches (line r) [errEv e] :=
+  init_raise_status env t n c m e hi hc
+
+/-- **status, HTTP producer** followed to its end, for every break-decision function: all records but the last say ok, the
+last matches what `HttpStreamSession.__iter__` delivered, a cancel record (if any) follows -/
+theorem C34_status_http_producer (env : Env) (n : Nat) (m : StreamM) (brk : Nat → Bool) (fin : Fin)
+    (hx : m.exchange = false) (hi : m.init = none) :
+    ∃ front last tail, callRecords env .http n (.producer m brk none fin) = front ++ [last] ++ tail ∧
+      (∀ r ∈ front, Spec.ReportsOk (line r)) ∧
+      Spec.Matches (line last) (Engine.Http.iterate brk [] m.steps) ∧
+      (∀ r ∈ tail, Spec.ReportsCancel (line r)) :=
+  http_producer_drained env n m brk fin hx hi
+
+/-- **status, HTTP exchange turn** at any cursor (first try or replay after an error): the record matches what
+`HttpStreamSession.exchange` delivered for that request -/
+theorem C34_status_http_exchange (env : Env) (brk : Nat → Bool) (n : Nat) (m : StreamM) (pos : Nat) :
+    ∀ r ∈ Http.serve env brk n m (.exch pos none),
+      Spec.Matches (line r) (Engine.Http.exchangeOne (stepAt true m.steps pos)).1 :=
+  http_exchange_turn_status env brk n m pos
+
+/-- **status, any HTTP response** (also of a partially consumed stream): the record reports exactly the error the response
+body carries, and is marked cancelled exactly for a cancel request -/
+theorem C34_status_http_response (env : Env) (brk : Nat → Bool) (n : Nat) (m : StreamM) (q : Http.Req) :
+    ∀ r ∈ Http.serve env brk n m q,
+      (match Http.reqErr brk m q with
+       | some e => Spec.ReportsError (line r) e
+       | none => Spec.ReportsOk (line r)) ∧
+      (line r).cancelled = (match q with | .cancel => true | _ => false) :=
+  serve_reports env brk n m q
+
+/-- **cancel**: a record marked cancelled has status ok (the client's `cancel()` returned), on every transport -/
+theorem C34_status_cancel (env : Env) (t : Transport) (n : Nat) (c : Call) :
+    ∀ r ∈ callRecords env t n c, (line r).cancelled = true → Spec.ReportsCancel (line r) :=
+  cancelled_ok env t n c
+
+/-- **one stream_id per stream**: every record of the n-th call names the call's method and type; the records of a stream
+call all carry the id minted for it, the record of a unary call none -/
+theorem C34_stream_id (env : Env) (henv : EnvOk env) (t : Transport) (n : Nat) (c : Call) :
+    (∀ r ∈ callRecords env t n c, Attributed env n c r) ∧
+      (c.isStream = true → Spec.OneStreamId ((callRecords env t n c).map line)) := by
+  refine ⟨call_attr henv t n c, fun hs => ⟨env.sid n, ?_⟩⟩
+  intro l hl
+  obtain ⟨r, hr, rfl⟩ := List.mem_map.mp hl
+  have := (call_attr henv t n c r hr).2.2
+  rw [hs] at this
+  exact this
+
+/-- … and the formatter never drops or changes it (also in the sentinel form) -/
+theorem C34_stream_id_formatted (fits : Record → Bool) (r : Record) : (format fits r).streamId = r.streamId :=
+  format_streamId fits r
+
+/-- **full message**: every error record names an exception `e` of the call's program: `error_type` is its class,
+`error_message` is `str(e)` in full (never empty: the class name when `str(e)` is empty) -/
+theorem C34_message (env : Env) (t : Transport) (n : Nat) (c : Call)
+    (hk : match c with | .unary _ _ => True | .producer m _ _ _ => m.exchange = false | .exchange m _ _ _ => m.exchange = true) :
+    ∀ r ∈ callRecords env t n c, (line r).status = .error → ∃ e, c.mayRaise e ∧ Spec.ReportsError (line r) e :=
+  call_message env t n c hk
+
+/-- … and the formatter keeps it whole under any size function -/
+theorem C34_message_formatted (env : Env) (henv : EnvOk env) (t : Transport) (n : Nat) (c : Call) (hn : c.name ≠ [])
+    (fits : Record → Bool) :
+    ∀ r ∈ callRecords env t n c, r.status = .error → (format fits r).errorMessage = r.errorMessage :=
+  fun r hr he => format_message fits (call_wf henv t n c hn r hr) he
+
+/-- **keys**: the model's records use exactly the keys the code can write — the formatter's four, the `extra` literal (always),
+the conditional stores of `_emit_access_log`, `response_bytes` of the egress middleware; the sentinel the keys of its literal
+(always) and its conditional stores -/
+theorem C34_keys (env : Env) (amb : Ambient) (s : Site) (r : Record) :
+    (∀ k, ((emit env amb s).get k).isSome = true →
+        k ∈ [Gen.C34.Key.timestamp, .level, .logger, .message] ++ G.emitBase ++ G.emitCond) ∧
+      (∀ k ∈ G.emitBase, ((emit env amb s).get k).isSome = true) ∧
+      (∀ k, ((sentinel r).get k).isSome = true → k ∈ G.sentinelBase ++ G.sentinelCond) ∧
+      (∀ k ∈ G.sentinelBase, ((sentinel r).get k).isSome = true) :=
+  ⟨emit_keys env amb s, emit_base env amb s, sentinel_keys r, sentinel_base r⟩
+
 end VgiVerif.C34
